@@ -439,6 +439,7 @@ func (f *frame) applyModifies(ct *Contract, env *SpecEnv) {
 		switch x.Op {
 		case "ident":
 			if x.Tok == "cb_log" {
+				u.frameGhostWrite("cb_log")
 				f.havocCbLog()
 				continue
 			}
@@ -451,6 +452,7 @@ func (f *frame) applyModifies(ct *Contract, env *SpecEnv) {
 				}
 			}
 			if g, ok := u.eng.ghosts[x.Tok]; ok {
+				u.frameGhostWrite(x.Tok)
 				u.heap(f.cur, "G."+x.Tok, u.tc.smt(g))
 				u.havocHeap(f.cur, "G."+x.Tok)
 				continue
@@ -468,6 +470,7 @@ func (f *frame) applyModifies(ct *Contract, env *SpecEnv) {
 					hs := "(Array Int " + u.tc.smt(gf) + ")"
 					h := u.heap(f.cur, hn, hs)
 					v := u.declare("gf_"+x.Tok, gf)
+					u.frameWrite(hn, id, nil, nil, "ghost field "+x.Tok+" modified by the callee")
 					u.setHeap(f.cur, hn, hs, sto(h, id, v))
 					continue
 				}
@@ -485,6 +488,7 @@ func (f *frame) applyModifies(ct *Contract, env *SpecEnv) {
 			if fs.K == KSlice {
 				u.assume(u.wfSlice(v))
 			}
+			u.frameWrite(hn, b, nil, nil, "field "+x.Tok+" modified by the callee")
 			u.setHeap(f.cur, hn, hs, sto(h, b, v))
 		case "un":
 			if x.Tok != "*" {
@@ -503,6 +507,7 @@ func (f *frame) applyModifies(ct *Contract, env *SpecEnv) {
 					if fs.K == KSlice {
 						u.assume(u.wfSlice(v))
 					}
+					u.frameWrite(hn, p, nil, nil, "object modified by the callee")
 					u.setHeap(f.cur, hn, hs, sto(h, p, v))
 				}
 				continue
@@ -510,6 +515,9 @@ func (f *frame) applyModifies(ct *Contract, env *SpecEnv) {
 			hn, hs, s := u.boxHeapName(el)
 			h := u.heap(f.cur, hn, hs)
 			v := u.declare("mod_box", s)
+			if p.S != "0" {
+				u.frameWrite(hn, Term{"(ite (= " + p.S + " 0) " + sanitize("G.nextRef") + "!init " + p.S + ")", p.T}, nil, nil, "pointee modified by the callee")
+			}
 			// a nil pointer is not written
 			u.setHeap(f.cur, hn, hs, Term{"(ite (= " + p.S + " 0) " + h.S + " " + sto(h, p, v).S + ")", nil})
 		case "slice", "index":
@@ -539,6 +547,11 @@ func (f *frame) applyModifies(ct *Contract, env *SpecEnv) {
 			oldInner := "(select " + h.S + " (s-ref " + b.S + "))"
 			u.assume(Term{fmt.Sprintf("(forall ((q_i Int)) (! (=> (or (< q_i %s) (>= q_i %s)) (= (select %s q_i) (select %s q_i))) :pattern ((select %s q_i))))",
 				add(sliceOff(b), lo).S, add(sliceOff(b), hi).S, inner, oldInner, inner), sBool})
+			{
+				alo, ahi := add(sliceOff(b), lo), add(sliceOff(b), hi)
+				// an empty range writes nothing
+				u.frameWrite(hn, Term{"(ite (< " + alo.S + " " + ahi.S + ") " + sliceRef(b).S + " " + sanitize("G.nextRef") + "!init)", sInt}, &alo, &ahi, "elements modified by the callee")
+			}
 			u.setHeap(f.cur, hn, hs, sto(h, sliceRef(b), Term{inner, nil}))
 		default:
 			env.bad("modifies: unsupported location %s", x)
@@ -611,6 +624,7 @@ func (f *frame) callback(fv Term, c *ssa.CallCommon, args []Val, resT *types.Tup
 	n := u.ghost(f.cur, "cb_n", sInt)
 	// log entry: function identity, and for the common shape (bytes, int32) the bytes snapshot and stamp
 	fnH := u.heap(f.cur, "G.cb_fn", "(Array Int Int)")
+	u.frameGhostWrite("cb_log")
 	u.setHeap(f.cur, "G.cb_fn", "(Array Int Int)", sto(fnH, n, fv))
 	for i, a := range args {
 		t, ok := a.(Term)
@@ -762,6 +776,11 @@ func (f *frame) copyOp(c *ssa.CallCommon, ins ssa.Instruction) Val {
 	oldInner := "(select " + h.S + " (s-ref " + dst.S + "))"
 	u.assume(Term{fmt.Sprintf("(forall ((q_i Int)) (! (= (select %s q_i) (ite (and (<= (s-off %s) q_i) (< q_i (+ (s-off %s) %s))) %s (select %s q_i))) :pattern ((select %s q_i))))",
 		na, dst.S, dst.S, n.S, sAt("(- q_i (s-off "+dst.S+"))"), oldInner, na), sBool})
+	{
+		alo := sliceOff(dst)
+		ahi := add(sliceOff(dst), n)
+		u.frameWrite(hn, Term{"(ite (< 0 " + n.S + ") " + sliceRef(dst).S + " " + sanitize("G.nextRef") + "!init)", sInt}, &alo, &ahi, "copy destination")
+	}
 	u.setHeap(f.cur, hn, hs, sto(h, sliceRef(dst), Term{na, nil}))
 	return Term{n.S, sInt}
 }
